@@ -671,7 +671,9 @@ func optConfigs() []optConfig {
 	// the options that only ask for additional output (diagnostics, SSA / circuit listings in every format) must not
 	// touch the circuit either
 	cs = append(cs, optConfig{"Yao/prune=false/mult=0/diagnostics+listings", utils.TargetYao, false, 0},
-		optConfig{"GMW/prune=true/mult=0/diagnostics+listings", utils.TargetGMW, true, 0})
+		optConfig{"GMW/prune=true/mult=0/diagnostics+listings", utils.TargetGMW, true, 0},
+		// the warning switches only say what is reported
+		optConfig{"Yao/prune=true/mult=0/warnings-off", utils.TargetYao, true, 0})
 	return cs
 }
 
@@ -685,6 +687,9 @@ func (c optConfig) params() *utils.Params {
 	p.Target = c.target
 	p.OptPruneGates = c.prune
 	p.CircMultArrayTreshold = c.thresh
+	if strings.HasSuffix(c.name, "warnings-off") {
+		p.Warn.DisableAll()
+	}
 	if strings.HasSuffix(c.name, "listings") {
 		p.Diagnostics = true
 		p.SSAOut, p.SSADotOut = discardWC{}, discardWC{}
@@ -791,6 +796,16 @@ func c09Program(res *Result, src string, tests [][]int, wr int) {
 	}
 }
 
+var c09ConstantTemplates = []string{
+	"package main\n\nfunc main(a, b uint8) (uint8, bool) {\n\treturn (a << 1) - b, true\n}\n",
+	"package main\n\nfunc main(a, b uint16) (uint16, uint8) {\n\treturn (a << 2) - b, 16\n}\n",
+	"package main\n\nfunc main(a, b uint8) (bool, uint8) {\n\treturn false, (a | 1) + b\n}\n",
+	"package main\n\nfunc main(a, b uint8) (uint8, uint8, bool) {\n\treturn a - (b << 3), 1, a < b\n}\n",
+	"package main\n\nfunc main(a, b int8) (int8, int8) {\n\treturn -a - b, -1\n}\n",
+	"package main\n\nfunc main(a, b uint8) uint8 {\n\tfor i := 0; i < 4; i++ {\n\t\tif i == 2 {\n\t\t\treturn a + uint8(i)\n\t\t}\n\t\ta = a ^ b\n\t}\n\treturn b\n}\n",
+	"package main\n\nfunc pick(x, y uint8, n int) uint8 {\n\tif n > 2 {\n\t\treturn x\n\t}\n\treturn y\n}\n\nfunc main(a, b uint8) (uint8, uint8) {\n\treturn pick(a, b, 3), pick(a, b, 1)\n}\n",
+}
+
 func init() { commands["c09"] = c09Main }
 
 func c09Main(args []string) error {
@@ -884,6 +899,14 @@ func c09Main(args []string) error {
 					out.put(res)
 				}
 			}
+		}
+		// results that are (partly) literals next to arithmetic whose constants meet them in the optimisation passes,
+		// and code after a return that a compile-time condition made unconditional
+		for _, src := range c09ConstantTemplates {
+			res := &Result{Case: n, Nontrivial: true, Class: "constant-result"}
+			n++
+			c09Program(res, src, nil, 0)
+			out.put(res)
 		}
 		// the arithmetic builders at widths where the multiplier thresholds and the GMW variants switch algorithms:
 		// single-operator programs, compared across the configurations on boundary and random operands
